@@ -184,6 +184,19 @@ func TestCheck(t *testing.T) {
 			judge(r, "hlen", m)
 		}
 	}
+	// (3b) committed corpus: replay + mutants
+	corp := mon.Corpus("v4")
+	for i, b := range corp {
+		if !r.Mine(i) {
+			continue
+		}
+		judge(r, "corpus", b)
+		rng := r.Rand("corpus", i)
+		for k := 0; k < r.Pick(3, 40); k++ {
+			judge(r, "corpus-mut", gen4.Mutate(rng, b, nil))
+		}
+	}
+	r.Set("corpus_entries", len(corp))
 	// (4) generated non-canonical packets and structure-aware mutants
 	ng := r.Pick(50000, 6000000)
 	var prev []byte
